@@ -128,7 +128,7 @@ def run(ctx):
         "every ordered pair (u,v), u!=v, of units of one quantity type in each self-built database "
         "(posc, posc without categories, FillSimple) x values; a case is the pair; checked: identity exact, "
         "round trip and path independence within K=16 x running float error scale, (strict) monotonicity; "
-        "thorough adds all ordered triples"
+        "thorough adds all ordered triples; a sample of pairs is asked again after the sweep (and after the same labels went through the 'Unknown' type) and must answer bit for bit like a fresh database"
     )
     ctx.assumptions = [
         "float error scale: 2^-53 x (|offsets| + |slope x|) in base units, accepted multiple K=16",
@@ -178,6 +178,31 @@ def run(ctx):
                 if idx < 3 and ctx.shard == 0:
                     ctx.sample({"db": kind, "qt": qt, "u": u, "v": v, "x": xs[-1], "y": ys[-1]})
             maxratio = max(maxratio, P.maxratio)
+            # history independence: after the whole sweep (and after the same unit labels were asked about under
+            # the accept-anything 'Unknown' quantity type, and under other container kinds) a sample of pairs
+            # answers bit for bit what a database that was asked nothing else answers
+            mine = [w_ for i_, w_ in enumerate(work) if i_ % ctx.nshards == ctx.shard]
+            sample = r.sample(mine, min(len(mine), 300 if ctx.tier == "quick" else 3000))
+            fresh = table.build(kind)
+            for qt, u, v, _us in sample:
+                for x in (xs[0], xs[len(xs) // 2], xs[-1]):
+                    ctx.ev()
+                    try:
+                        if "Unknown" in db.quantity_types:
+                            db.Convert("Unknown", u, v, x)
+                        db.Convert(qt, u, v, [x, x])
+                        warm = db.Convert(qt, u, v, x)
+                        with table.pushed(fresh):
+                            # on the other database the pair meets the 'Unknown' type *first*
+                            if "Unknown" in fresh.quantity_types and fresh.Convert("Unknown", u, v, x) != x:
+                                ctx.violation("%s:%s:%s->%s:Unknown-type-did-not-return-the-value-unchanged" % (kind, qt, u, v), {"x": x, "db": kind})
+                            cold = fresh.Convert(qt, u, v, x)
+                    except Exception as e:
+                        ctx.violation("%s:%s:%s->%s:second-pass-raised" % (kind, qt, u, v), {"error": repr(e)[:200], "db": kind}, replay={"kind": kind, "qt": qt, "u": u, "v": v, "x": x})
+                        break
+                    if repr(warm) != repr(cold):
+                        ctx.violation("%s:%s:%s->%s:depends-on-history" % (kind, qt, u, v), {"after_the_sweep": repr(warm), "on_a_fresh_database": repr(cold), "x": x, "db": kind}, replay={"kind": kind, "qt": qt, "u": u, "v": v, "x": x})
+                        break
             # slope sign of every unit (strictly increasing maps)
             if ctx.shard == 0:
                 for u, a in aff.items():
